@@ -123,6 +123,16 @@ fn case_create_autoclose(s: &Sys) -> Case {
         funds: sorted(vec![coin(5000, "uusdt"), coin(1500, "uom")]) }
 }
 
+/// as above, but the new farm re-uses the identifier of one of the expired farms closed in the same transaction
+fn case_create_autoclose_same_id(s: &Sys) -> Case {
+    let mut c = case_create_autoclose(s);
+    c.kind = "fm_create_farm_autoclose2_same_id".into();
+    if let Target::Fm(fm::ExecuteMsg::ManageFarm { action: fm::FarmAction::Create { params } }) = &mut c.target {
+        params.farm_identifier = Some("f1".into());
+    }
+    c
+}
+
 fn exec_case(s: &mut Sys, c: &Case) -> anyhow::Result<cw_multi_test::AppResponse> {
     match &c.target {
         Target::Pm(m) => { let a = s.pool.clone(); s.exec(&c.sender, &a, m, &c.funds) }
@@ -152,7 +162,8 @@ fn run_case(t: &mut Tracer, variant: u64, extra_time: u64, pick: &dyn Fn(&Sys) -
         // farms present before and absent after the fault-free run, with their remainder at the time
         let b = pre["fm"]["farms"].as_object().cloned().unwrap_or_default();
         let a = base_post["fm"]["farms"].as_object().cloned().unwrap_or_default();
-        b.iter().filter(|(k, _)| !a.contains_key(*k)).map(|(k, v)| json!({"id": k, "owner": v["owner"], "denom": v["denom"], "amount": v["amount"], "claimed": v["claimed"]})).collect()
+        // a farm is closed if it disappeared, or if another farm took over its identifier (owner / budget / epochs differ)
+        b.iter().filter(|(k, v)| match a.get(*k) { None => true, Some(w) => w["owner"] != v["owner"] || w["start"] != v["start"] || w["amount"] != v["amount"] || w["denom"] != v["denom"] }).map(|(k, v)| json!({"id": k, "owner": v["owner"], "denom": v["denom"], "amount": v["amount"], "claimed": v["claimed"]})).collect()
     };
     t.emit("fault_base", json!({"kind": c.kind, "variant": variant, "sender": s.sym_of(c.sender.as_str()), "funds": funds_json(&s, &c.funds),
         "single": c.kind.starts_with("pm_provide_single"), "ok": r0.is_ok(), "ncalls": n, "calls": calls, "pre": pre, "post": base_post, "closed": farms_closed,
@@ -190,6 +201,7 @@ pub fn run(rng: &mut StdRng, thorough: bool, t: &mut Tracer) {
         }
         // 40 days later both farms have expired
         run_case(t, v, 40 * DAY, &case_create_autoclose);
+        run_case(t, v, 40 * DAY, &case_create_autoclose_same_id);
         run_case(t, v, 40 * DAY, &move |s: &Sys| cases(s).into_iter().find(|c| c.kind == "fm_close_farm").unwrap());
     }
 }
